@@ -75,7 +75,7 @@ UNITS += [
     D.rv_unit("c08_realvector_sampleUniform", "h_sampleUniform", "rv_sampleUniform", ["RealVectorStateSampler::sampleUniform"],
               [dict(name="wrong_dimension_bound", where="body:rv_sampleUniform", rx=r"bounds_\.high\[i\]", repl="(bounds_.high[i] + 1.0)")]),
     D.rv_unit("c08_realvector_sampleUniformNear", "h_sampleUniformNear", "rv_sampleUniformNear", ["RealVectorStateSampler::sampleUniformNear"],
-              [dict(name="no_clipping", where="body:rv_sampleUniformNear", rx=r"MIND\(bounds_\.high\[i\], rnear->values\[i\] \+ distance\)", repl="(rnear->values[i] + distance)")]),
+              [dict(name="no_clipping", where="body:rv_sampleUniformNear", rx=r"MIND\(bounds_\.high\[i\], rnear->values\[i\] \+ distance\)", repl="(rnear->values[i] + distance)")], backend="kissat"),
     D.rv_unit("c08_realvector_sampleGaussian", "h_sampleGaussian", "rv_sampleGaussian", ["RealVectorStateSampler::sampleGaussian"],
               [dict(name="no_upper_clamp", where="body:rv_sampleGaussian", rx=r"else if \(v > bounds_\.high\[i\]\)\s*v = bounds_\.high\[i\];", repl="")]),
 ]
